@@ -173,8 +173,12 @@ def clone_phase(run, b, dist):
     lines = []
     for _ in range(12 if run.thorough else 4):
         nc = rng.choice([1, 2, 2, 3]); size = rng.choice([8, 16, 64])
-        ops = []
-        for _ in range(rng.randrange(2, 6)): ops += [rng.randrange(nc), rng.choice([1, 1, 2, 3])]
+        ops = []; total = 0
+        for _ in range(rng.randrange(2, 6)):
+            cnt = rng.choice([1, 1, 2, 3])
+            if total + cnt >= size: break            # no consumers: a correct sequencer blocks once size - 1 sequences are outstanding
+            total += cnt; ops += [rng.randrange(nc), cnt]
+        if len(ops) < 4: ops = [0, 1, nc - 1, 1]
         lines.append(f"seqclone {size} {nc} " + fmt(ops))
     lines.append("seqclone 8 2 0 1 1 1")                         # the witness of D13
     rc, outs, err = run_lines(b, lines, line_timeout=15)
